@@ -3,6 +3,9 @@ package checks
 import (
 	"fmt"
 	dtpb "github.com/google/fhir/go/proto/google/fhir/proto/r4/core/datatypes_go_proto"
+	bcrpb "github.com/google/fhir/go/proto/google/fhir/proto/r4/core/resources/bundle_and_contained_resource_go_proto"
+	"github.com/verily-src/fhirpath-go/fhirpath"
+	"github.com/verily-src/fhirpath-go/fhirpath/compopts"
 	"math"
 	"strings"
 
@@ -660,6 +663,60 @@ func init() {
 				}},
 				{Name: "set-functions", N: nPair * nPair, Note: fmt.Sprintf("all ordered pairs of collections of length <=%d (%d^2) x {exclude, intersect}", pairLen, nPair), Run: func(i int, r *core.Rec) {
 					setCase(r, decode(i/nPair), decode(i%nPair))
+				}},
+				{Name: "aggregates-under-both-navigations", N: 2, Note: "13 paths (choice elements, contained resources, Bundle entries incl. an entry whose resource wrapper is empty) x 6 inputs x {default, Permissive}: empty() = (count() = 0), exists() = empty().not(), count() = where(true).count() = select($this).count(), first() + tail() = all, isDistinct() = (count() = distinct().count()), all(true)", Run: func(i int, r *core.Rec) {
+					var copts []fhirpath.CompileOption
+					cfg := "default"
+					if i == 1 {
+						copts, cfg = []fhirpath.CompileOption{compopts.Permissive()}, "Permissive"
+					}
+					degenerate := func() fhir.Resource {
+						b := lib.Bundle()
+						b.Entry = append([]*bcrpb.Bundle_Entry{{Resource: &bcrpb.ContainedResource{}}}, b.Entry...)
+						return b
+					}
+					onlyEmpty := func() fhir.Resource {
+						return &bcrpb.Bundle{Entry: []*bcrpb.Bundle_Entry{{Resource: &bcrpb.ContainedResource{}}, {Resource: &bcrpb.ContainedResource{}}}}
+					}
+					inputs := []struct {
+						name string
+						mk   func() fhir.Resource
+					}{{"Patient", func() fhir.Resource { return lib.Patient() }}, {"PatientWithContained", func() fhir.Resource { return lib.PatientWithContained() }}, {"Observation", func() fhir.Resource { return lib.Observation() }},
+						{"Bundle", func() fhir.Resource { return lib.Bundle() }}, {"Bundle(first entry: empty wrapper)", degenerate}, {"Bundle(only empty wrappers)", onlyEmpty}}
+					paths := []string{"Bundle.entry.resource", "Bundle.entry.first().resource", "Bundle.entry.take(1).resource", "Bundle.entry.resource.first()", "Bundle.entry.resource.name", "Patient.contained", "Patient.deceased",
+						"Patient.multipleBirth", "Patient.name.given", "Observation.value", "Patient.extension.value", "children()", "Patient.generalPractitioner"}
+					for _, inp := range inputs {
+						for _, P := range paths {
+							in := []fhir.Resource{inp.mk()}
+							ev := func(src string) string {
+								res := lib.Run(src, in, nil, copts...)
+								r.Eval()
+								if res.Panic != nil {
+									return "PANIC " + res.Panic.Key()
+								}
+								if res.Err != nil || res.CompileErr != nil {
+									return "error"
+								}
+								return lib.ShowColl(res.Coll)
+							}
+							base := ev(P + ".count()")
+							if base == "error" || strings.HasPrefix(base, "PANIC") {
+								continue // the path itself does not evaluate on this input: nothing to relate
+							}
+							r.State("aggregates|" + cfg)
+							for _, eq := range []struct{ name, l, rr string }{
+								{"empty=count-is-0", P + ".empty()", "(" + P + ".count() = 0)"}, {"exists=not-empty", P + ".exists()", P + ".empty().not()"}, {"count=where(true).count", P + ".count()", P + ".where(true).count()"},
+								{"count=select($this).count", P + ".count()", P + ".select($this).count()"}, {"first+tail", "(" + P + ".first().count() + " + P + ".tail().count())", P + ".count()"},
+								{"isDistinct", P + ".isDistinct()", "(" + P + ".count() = " + P + ".distinct().count())"}, {"all(true)", P + ".all(true)", "true"}, {"take+skip", "(" + P + ".take(1).count() + " + P + ".skip(1).count())", P + ".count()"},
+							} {
+								gl, gr := ev(eq.l), ev(eq.rr)
+								r.Nontrivial(inp.name, cfg, eq.l, gl, gr)
+								if gl != gr {
+									r.Fail(c10Key("aggregate-equation", eq.name, cfg, gl+"-vs-"+gr), core.W{"input": inp.name, "compile_option": cfg, "lhs": eq.l, "rhs": eq.rr, "lhs_result": gl, "rhs_result": gr})
+								}
+							}
+						}
+					}
 				}},
 				{Name: "resource-paths", N: len(c10Paths), Note: "path-derived collections (primitive, complex, mixed, duplicates) x relational equations x extension(url)", Run: func(i int, r *core.Rec) {
 					p := c10Paths[i]
